@@ -1750,6 +1750,46 @@ def c09_eval(ctx):
 # C16 clauses
 # ---------------------------------------------------------------------------
 
+def c04_error_surfaces(ctx):
+    """An error outcome can be registered while no task is in flight - the input iterator raising inside a slice is turned
+    into an error tracker by dispatch_one_batch (C04.ITER-EXC), a timeout is registered by get_status. Registration sets
+    `_aborting` (C04.FLAGS); the error is RAISED only by `_raise_error_fast()` inside the retrieval loop, and the end-of-run
+    code drops all pending outcomes once `_exception` is set. So the loop must be entered whenever `_aborting` is set: over
+    the fact table of `_wait_retrieval`, every row with `_aborting` true answers True - or the loop is followed by an
+    unconditional `_raise_error_fast()`. Otherwise Parallel returns [] (or a truncated list) instead of raising."""
+    f = F(ctx, "Parallel._wait_retrieval")
+    g = cfg_of(f)
+    from ..table import run as run_table, Unknown
+    import itertools as _it
+    bad_rows = []
+    n_rows = 0
+    for iterating, pending, legacy, queued in _it.product((False, True), repeat=4):
+        env = {"self._iterating": iterating, "self.n_completed_tasks": 3 if not pending else 2, "self.n_dispatched_tasks": 3,
+               "self._backend.supports_retrieve_callback": not legacy, "self._jobs": (1,) if queued else (), "self._aborting": True,
+               "self._exception": True}
+        try:
+            kind, val = run_table(g, env, f)
+        except Unknown as e:
+            ctx.need(False, "_wait_retrieval: answer not understood (%s)" % e)
+            return
+        n_rows += 1
+        if kind != "return" or not val:
+            bad_rows.append((iterating, pending, legacy, queued))
+    r = F(ctx, "Parallel._retrieve")
+    gr = cfg_of(r)
+    loops = [w for w in nodes_of_type(r, ast.While) if any(call_name(c) == "self._wait_retrieval" for c in calls_in(w.test))]
+    ctx.need(bool(loops), "_retrieve no longer loops on _wait_retrieval")
+    inside = [c for c in calls_in(loops[0]) if call_name(c) == "self._raise_error_fast"]
+    after = [c for c in calls_in(r) if call_name(c) == "self._raise_error_fast" and c not in inside]
+    after_ok = bool(after) and gr.every_path_from(gr.nodes_of(loops[0]), gr.nodes_of_all(after), skip_exc=True, avoid_edges={(gr.nodes_of(loops[0])[0], t_, "T") for t_ in gr.label_succ(gr.nodes_of(loops[0])[0], "T")})
+    ctx.check(bool(inside) or bool(after), r, "the retrieval code raises a registered error through _raise_error_fast()", "_retrieve never calls _raise_error_fast(): a registered error is not raised")
+    ctx.check(not bad_rows or after_ok, f,
+              "a registered error is always raised: the retrieval loop is entered whenever _aborting is set (%d rows)%s" % (n_rows, " or an unconditional check follows the loop" if after_ok else ""),
+              "with _aborting set, _wait_retrieval answers False when (iterating, tasks pending, legacy backend, queued jobs) = %s: an error registered while no task is in flight "
+              "(the input iterator raised inside a slice under pre_dispatch='all', or after all dispatched tasks completed) is never raised - the call returns []" % (bad_rows[:3],),
+              key=PAR + "::Parallel._wait_retrieval::answers False while an error is registered")
+
+
 def c01_status_mode(ctx):
     """The completion tracker works in one of two modes, chosen by ONE capability of the backend
     (`supports_retrieve_callback`): results registered by the callback (status starts PENDING, `get_result` hands out the
